@@ -34,9 +34,41 @@ Record bundle := {
   b_taint : bool
 }.
 
+Definition is_ascii_b (s : bytes) : bool := forallb (fun c => c <? 128) s.
+
+(* a URL found in the file: (accepted?, tainted?) under the reader's tests *)
+Definition index_url_ok (u : bytes) : bool * bool :=
+  match url_ref u with
+  | RErr => (false, false)
+  | ROk _ frag user => (negb frag && negb user, false)
+  | RUnknown => (true, true)
+  end.
+Definition abs_url_ok (u : bytes) : bool * bool :=
+  match url_ref u with
+  | RErr => (false, false)
+  | ROk abs frag user => (abs && negb frag && negb user, false)
+  | RUnknown => (true, true)
+  end.
+
+Definition any_url_ok (u : bytes) : bool * bool :=
+  match url_ref u with
+  | RErr => (false, false)
+  | ROk _ _ _ => (true, false)
+  | RUnknown => (true, true)
+  end.
+
 (* ======================= writer (encoder.go) ============================ *)
+(* what Response.EncodeHeader accepts of one header field: the reader's own tests
+   (ASCII name not starting with ':', ASCII comma-joined value) *)
+Definition hdr_writable_b (nv : bytes * list bytes) : bool :=
+  negb (match fst nv with 58 :: _ => true | _ => false end)
+  && is_ascii_b (fst nv) && is_ascii_b (join_comma (snd nv)).
+
 (* Response.EncodeHeader *)
 Definition encode_response_header (status : Z) (h : headers) : R bytes :=
+  if ((status <? 100) || (999 <? status))%Z then Err
+  else if negb (forallb hdr_writable_b h) then Err
+  else
   enc_map ((enc_bytes (s2b ":status"), enc_bytes (dec_of_Z status))
            :: map (fun nv => (enc_bytes (lower (fst nv)), enc_bytes (join_comma (snd nv)))) h).
 
@@ -53,6 +85,8 @@ Fixpoint add_exchanges (xs : list bexchange) (buf : bytes) (acc : list ientry) :
   | [] => Ok (buf, rev acc)
   | x :: t =>
       let* item := encode_response x in
+      if negb (utf8_valid (bx_url x)) then Err else                (* checkURL: not valid UTF-8 *)
+      if negb (fst (index_url_ok (bx_url x))) then Err else      (* checkURL: fragment / credentials *)
       let ent := {| ie_url := bx_url x;
                     ie_variants := join_comma (hdr_lookup (bx_hdr x) (canonical_key (s2b "variants")));
                     ie_vkey := join_comma (hdr_lookup (bx_hdr x) (canonical_key (s2b "variant-key")));
@@ -136,12 +170,15 @@ Definition b_write (b : bundle) : R bytes :=
   let* idx := index_section v ients in
   let* prim_sec :=
     (match has_primary_in_header v, b_primary b with
-     | false, Some u => let* t := enc_text u in Ok [(s2b "primary", t)]
+     | false, Some u => if negb (fst (abs_url_ok u)) then Err else
+                        let* t := enc_text u in Ok [(s2b "primary", t)]
      | _, _ => Ok []
      end) in
   let* man_sec :=
     (match b_manifest b with
-     | Some u => if supports_manifest v then let* t := enc_text u in Ok [(s2b "manifest", t)] else Err
+     | Some u => if supports_manifest v
+                 then (if negb (fst (abs_url_ok u)) then Err else let* t := enc_text u in Ok [(s2b "manifest", t)])
+                 else Err
      | None => Ok []
      end) in
   let* sig_sec :=
@@ -153,13 +190,21 @@ Definition b_write (b : bundle) : R bytes :=
   let* prim_hdr :=
     (if has_primary_in_header v then
        match b_primary b with
-       | Some u => enc_text u
-       | None => Panic                                  (* nil *url.URL dereference *)
+       | Some u => if negb (fst (any_url_ok u)) then Err else enc_text u      (* must parse *)
+       | None => Err                                    (* this version requires a primary URL *)
        end
      else Ok []) in
   let body := header_magic_bytes v ++ prim_hdr ++ section_table secs
               ++ enc_array_header (lenN secs) ++ flat_map snd secs in
   Ok (body ++ enc_bytes (be 8 (w64 (lenN body + 9)))).
+
+(* the writer's URL tests are decided by the partial URL model: outside its class
+   the answer of b_write is not trusted *)
+Definition b_write_taint (b : bundle) : bool :=
+  existsb (fun x => snd (index_url_ok (bx_url x))) (b_exchanges b)
+  || (match has_primary_in_header (b_ver b), b_primary b with
+      | false, Some u => snd (abs_url_ok u) | true, Some u => snd (any_url_ok u) | _, None => false end)
+  || (match b_manifest b with Some u => snd (abs_url_ok u) | None => false end).
 
 (* ======================= reader (decoder.go) ============================ *)
 Definition parse_magic (bs : bytes) : R (bversion * bytes) :=
@@ -195,7 +240,6 @@ Definition decode_section_lengths (bs : bytes) : R (list (bytes * N)) :=
   let* (n, r) := decode_array_header bs in
   dec_section_lengths (S (List.length r)) 0 n r [].
 
-Definition is_ascii_b (s : bytes) : bool := forallb (fun c => c <? 128) s.
 
 (* decodeCborHeaders: (headers, pseudos) *)
 Fixpoint dec_cbor_headers (fuel : nat) (n : N) (bs : bytes) (h : headers) (ps : list (bytes * bytes))
@@ -253,25 +297,6 @@ Definition load_response (item : bytes) : R (Z * headers * bytes) :=
         end
   end.
 
-(* a URL found in the file: (accepted?, tainted?) under the reader's tests *)
-Definition index_url_ok (u : bytes) : bool * bool :=
-  match url_ref u with
-  | RErr => (false, false)
-  | ROk _ frag user => (negb frag && negb user, false)
-  | RUnknown => (true, true)
-  end.
-Definition abs_url_ok (u : bytes) : bool * bool :=
-  match url_ref u with
-  | RErr => (false, false)
-  | ROk abs frag user => (abs && negb frag && negb user, false)
-  | RUnknown => (true, true)
-  end.
-Definition any_url_ok (u : bytes) : bool * bool :=
-  match url_ref u with
-  | RErr => (false, false)
-  | ROk _ _ _ => (true, false)
-  | RUnknown => (true, true)
-  end.
 
 Record loc := { l_url : bytes; l_off : N; l_len : N }.
 
